@@ -464,7 +464,11 @@ package ggql
 //@ autolemma errsIncSingle(a []error, lo int, hi int) {errsInc(a, lo, hi)}: len(a) == 1 && a[0] != nil && (aserr(a[0]) != nil ==> lo < addr(aserr(a[0])) && addr(aserr(a[0])) <= hi) ==> errsInc(a, lo, hi)
 //@ lemma errsIncConcat(a []error, b []error, c []error): forall lo int, m int, m2 int, hi int {errsInc(a, lo, m), errsInc(b, m2, hi)} :: errsInc(a, lo, m) && errsInc(b, m2, hi) && lo <= m && m <= m2 && m2 <= hi && isappend(a, b, c) ==> errsInc(c, lo, hi)
 //@ lemma errsIncSnoc(a []error, b []error, c []error): forall lo int, m int, hi int {errsInc(a, lo, m), errsInc(c, lo, hi)} :: errsInc(a, lo, m) && lo <= m && m <= hi && len(b) == 1 && b[0] != nil && (aserr(b[0]) != nil ==> m < addr(aserr(b[0])) && addr(aserr(b[0])) <= hi) && isappend(a, b, c) ==> errsInc(c, lo, hi)
+//@ lemma errsIncConcatL(a []error, b []error, c []error): forall m2 int, hi int {errsInc(b, m2, hi)} :: len(a) == 0 && errsInc(b, m2, hi) && isappend(a, b, c) ==> errsInc(c, m2, hi)
+//@ lemma errsIncConcatR(a []error, b []error, c []error): forall lo int, m int {errsInc(a, lo, m)} :: len(b) == 0 && errsInc(a, lo, m) && isappend(a, b, c) ==> errsInc(c, lo, m)
 //@ appendlemma error errsIncConcat
+//@ appendlemma error errsIncConcatL
+//@ appendlemma error errsIncConcatR
 //@ appendlemma error errsIncSnoc
 
 //@ spec prefixed(e *Error, loc interface{}) bool = len(e.Path) == old(len(e.Path)) + 1 && e.Path[0] == loc && (forall j int :: 0 <= j && j < old(len(e.Path)) ==> e.Path[j+1] == old(e.Path[j]))
@@ -547,6 +551,7 @@ package ggql
 //@   assigns nothing
 
 //@ func (*Root).resolveInline
+//@   requires ptrval(t) != 0
 //@   ensures[errs-fresh]{C06} errsFresh(ea)
 //@   props C08
 //@   check panic {C03}
@@ -554,9 +559,10 @@ package ggql
 //@   requires root != nil && sel != nil && result != nil && t != nil
 //@   requires !skippedSel(box(sel), vars)
 //@   ensures[not-applicable]{C08} sel.Condition != nil && sel.Condition != t ==> len(ea) == 0 && #res == old(#res) && (forall k string :: (has(result, k) <==> old(has(result, k))) && result[k] == old(result[k]))
-//@   assigns fresh, result, H_Field.ConType, H_Field.Args
+//@   assigns fresh, result, H_Field.ConType, H_Field.Args, #res
 
 //@ func (*Root).resolveFragRef
+//@   requires ptrval(t) != 0
 //@   ensures[errs-fresh]{C06} errsFresh(ea)
 //@   props C08
 //@   check panic {C03}
@@ -564,29 +570,89 @@ package ggql
 //@   requires root != nil && sel != nil && result != nil && t != nil
 //@   requires !skippedSel(box(sel), vars)
 //@   ensures[not-applicable]{C08} sel.Fragment.Condition != nil && sel.Fragment.Condition != t ==> len(ea) == 0 && #res == old(#res) && (forall k string :: (has(result, k) <==> old(has(result, k))) && result[k] == old(result[k]))
-//@   assigns fresh, result, H_Field.ConType, H_Field.Args
+//@   assigns fresh, result, H_Field.ConType, H_Field.Args, #res
 
 //@ func (*Root).resolveSels
+//@   requires ptrval(t) != 0
 //@   ensures[errs-fresh]{C06} errsFresh(ea)
 //@   props C01
 //@   check panic {C03}
 //@   check frame {C11}
 //@   requires root != nil && result != nil
 //@   requires t != nil
-//@   assigns fresh, result, H_Field.ConType, H_Field.Args
+//@   assigns fresh, result, H_Field.ConType, H_Field.Args, #res
 //@   loop 0: invariant[bounds] 0 <= rangeindex+1 && rangeindex+1 <= len(sels)
 //@           invariant[errs] errsFresh(ea)
 //@           decreases len(sels) - rangeindex
 
+//@ -- user callbacks: each Resolve call counts as a resolver invocation; user code is assumed not to write ggql-owned memory
+//@ interface Resolver.Resolve
+//@   ghost #res += 1
+//@   assigns fresh
+//@ interface AnyResolver.Resolve
+//@   ghost #res += 1
+//@   assigns fresh
+//@ interface ListResolver.Len
+//@   pure
+//@ interface ListResolver.Nth
+//@   pure
+
+//@ spec isMetaName(n string) bool = n == "__typename" || n == "__type" || n == "__schema"
+
+//@ func (*Root).GetType
+//@   abstract schema table lookup (root.init is idempotent after setup)
+//@   assigns nothing
+
+//@ func (*Field).sortArgs
+//@   abstract (C10/C11 contracts below are not yet checked against the body)
+//@   requires f != nil
+//@   ensures errsFresh(errors)
+//@   ensures #res == old(#res)
+//@   assigns fresh, f.Args
+
+//@ func (*Root).formArgs
+//@   abstract (not yet checked against the body)
+//@   requires field != nil
+//@   ensures errsFresh(ea)
+//@   ensures #res == old(#res)
+//@   assigns fresh
+
+//@ func (*Root).resolveReflect
+//@   abstract reflection strategy (reflect.Value.Call and struct field reads are user data access)
+//@   requires field != nil
+//@   ensures errsFresh(ea)
+//@   assigns fresh, #res
+
+//@ func (*Root).addError
+//@   abstract (not yet checked against the body)
+//@   requires f != nil && err != nil
+//@   ensures forall lo int {errsInc(ea, lo, old(#alloc))} :: errsInc(ea, lo, old(#alloc)) && lo <= old(#alloc) ==> errsInc(res, lo, #alloc)
+//@   ensures len(res) > len(ea)
+//@   ensures #res == old(#res)
+//@   assigns fresh
+
+//@ func (*Root).resolve
+//@   abstract (not yet checked against the body)
+//@   requires root != nil && field != nil
+//@   ensures errsFresh(ea)
+//@   ensures[null-depth] (depth <= 0 || isnilv(obj)) ==> result == obj && len(ea) == 0 && #res == old(#res)
+//@   assigns fresh, H_Field.ConType, H_Field.Args, #res
+
 //@ func (*Root).resolveField
+//@   requires ptrval(t) != 0
 //@   props C01
+//@   check panic {C03}
+//@   check frame {C11}
 //@   requires root != nil && field != nil && result != nil && t != nil
-//@   requires !skippedSel(box(field), vars)
+//@   requires{C09} !skippedSel(box(field), vars)
 //@   ensures[errs-fresh]{C06} errsFresh(ea)
-//@   assigns fresh, result, H_Field.ConType, H_Field.Args
-//@   abstract (contract not yet checked against the body)
+//@   ensures[key-frame]{C01} forall k string :: k != fkey(field) ==> (has(result, k) <==> old(has(result, k))) && result[k] == old(result[k])
+//@   ensures[typename]{C01} old(field.ConType) != nil && field.Name == "__typename" ==> has(result, fkey(field)) && result[fkey(field)] == box(t.Name()) && len(ea) == 0 && #res == old(#res)
+//@   ensures[undefined-field]{C10} old(field.ConType) != nil && !isMetaName(field.Name) && old(fdOf(t, field.Name)) == nil ==> len(ea) > 0 && #res == old(#res) && (has(result, fkey(field)) <==> old(has(result, fkey(field)))) && result[fkey(field)] == old(result[fkey(field)])
+//@   assigns fresh, result, H_Field.ConType, H_Field.Args, #res
 
 //@ func (*Root).resolveFieldSels
+//@   requires ptrval(t) != 0
 //@   props C01
 //@   check panic {C03}
 //@   check frame {C11}
@@ -594,4 +660,4 @@ package ggql
 //@   requires t != nil
 //@   ensures[fresh-map]{C01} is(result, map[string]interface{}) && fresh(as(result, map[string]interface{}))
 //@   ensures[errs-fresh]{C06} errsFresh(ea)
-//@   assigns fresh, H_Field.ConType, H_Field.Args
+//@   assigns fresh, H_Field.ConType, H_Field.Args, #res
